@@ -177,8 +177,8 @@ def stripCR (l : Bytes) : Bytes := if l.getLast? = some 0x0d then l.dropLast els
 /-- lines of a header block that ends with its own CRLF (h11: split on LF, strip one CR, drop the empty tail) -/
 def splitLines (block : Bytes) : List Bytes := ((splitLF block).dropLast).map stripCR
 
-/-- bytes removed by `bytes.strip()` -/
-def pyWs (b : UInt8) : Bool := b = 0x20 || b = 0x09 || b = 0x0a || b = 0x0d || b = 0x0b || b = 0x0c
+/-- bytes removed by `bytes.strip(b" \t\r\n")` (as of /repo b15fb8eb3: VT and FF are no longer stripped) -/
+def pyWs (b : UInt8) : Bool := b = 0x20 || b = 0x09 || b = 0x0d || b = 0x0a
 
 def strip (b : Bytes) : Bytes := ((b.dropWhile pyWs).reverse.dropWhile pyWs).reverse
 
